@@ -27,7 +27,35 @@ fn preambles(t: &mut Tape) -> Vec<Stmt> {
     let mut out = vec![];
     let n = t.pick(4);
     for k in 0..n {
-        match t.pick(5) {
+        match t.pick(8) {
+            5 => {
+                // A long help text over several lines whose closing quote
+                // stands at the start of its own line.
+                let reps = [1usize, 3, 7, 12][t.pick(4)];
+                let line = ["usage: tool [options] <input> <output>\n", "  --verbose   say more about what is going on, é\n", "\n", "日本語の行\n"];
+                let mut s = String::new();
+                for r in 0..reps {
+                    s.push_str(line[(r + k) % line.len()]);
+                }
+                let text: Vec<(char, Spell)> = s.chars().map(|c| (c, Spell::Raw)).collect();
+                out.push(declare(var(&format!("pre{k}")), ex(EK::Str(text))));
+            },
+            6 => {
+                // An interpolated literal with multi-byte text in the literal
+                // part and inside the slots.
+                let parts = vec![
+                    StrPart::Text("é日 ".chars().map(|c| (c, Spell::Raw)).collect()),
+                    StrPart::Slot(Box::new(index(obj(vec![pair("Zoë", string("ü"))]), string("Zoë")))),
+                    StrPart::Text(" — \n".chars().map(|c| (c, Spell::Raw)).collect()),
+                    StrPart::Slot(Box::new(bin(Op::Sum, string("🙂"), string("x")))),
+                ];
+                out.push(declare(var(&format!("pre{k}")), ex(EK::Interp(parts))));
+            },
+            7 => {
+                // One very long line.
+                let items: Vec<Expr> = (0..[40i64, 90, 200][t.pick(3)]).map(|v| if v % 7 == 0 { string("é") } else { int(v) }).collect();
+                out.push(declare(var(&format!("pre{k}")), list(items)));
+            },
             0 => {
                 // A multi-line string literal with multi-byte characters.
                 let text: Vec<(char, Spell)> = "é日本\n🙂 two\n\tthree".chars().map(|c| (c, Spell::Raw)).collect();
@@ -55,6 +83,24 @@ fn same_line_slots(f: &Expr) -> Vec<(&'static str, Vec<Stmt>)> {
         ("after a multi-byte key", vec![sdmodel::ast::print(obj(vec![pair("ключ", int(1)), pair("k", f.clone())]))]),
         ("after a multi-byte argument", vec![sdmodel::ast::print(call(var("usr"), vec![call(tprop(string("🙂é"), "len"), vec![]), f.clone()]))]),
         ("second operand after a multi-byte string", vec![sdmodel::ast::print(bin(Op::Sum, call(tprop(string("tab\there é"), "len"), vec![]), f.clone()))]),
+        ("second slot after a slot with multi-byte text", vec![sdmodel::ast::print(ex(EK::Interp(vec![
+            StrPart::Text("é ".chars().map(|c| (c, Spell::Raw)).collect()),
+            StrPart::Slot(Box::new(index(obj(vec![pair("Zoë", string("ü"))]), string("Zoë")))),
+            StrPart::Text(" 日 ".chars().map(|c| (c, Spell::Raw)).collect()),
+            StrPart::Slot(Box::new(f.clone())),
+        ])))]),
+        ("third slot after two slots with multi-byte literals", vec![sdmodel::ast::print(ex(EK::Interp(vec![
+            StrPart::Slot(Box::new(string("🙂🙂"))),
+            StrPart::Slot(Box::new(bin(Op::Sum, string("日本"), string("é")))),
+            StrPart::Text("-".chars().map(|c| (c, Spell::Raw)).collect()),
+            StrPart::Slot(Box::new(f.clone())),
+            StrPart::Text("é".chars().map(|c| (c, Spell::Raw)).collect()),
+        ])))]),
+        ("slot after escapes and a multi-byte slot", vec![sdmodel::ast::print(ex(EK::Interp(vec![
+            StrPart::Text(vec![('\\', Spell::Esc), ('$', Spell::Esc), ('"', Spell::Esc), ('A', Spell::Hex), ('ß', Spell::Raw)]),
+            StrPart::Slot(Box::new(call(tprop(string("ключ"), "type"), vec![]))),
+            StrPart::Slot(Box::new(f.clone())),
+        ])))]),
         ("chain of three operators", vec![sdmodel::ast::print(bin(Op::Sum, bin(Op::Sum, int(1), int(2)), f.clone()))]),
         ("chain with the fault first", vec![sdmodel::ast::print(bin(Op::Sub, bin(Op::Sum, f.clone(), int(2)), int(3)))]),
         ("chain with the fault in the middle", vec![sdmodel::ast::print(bin(Op::Mul, bin(Op::Mul, bin(Op::Mul, int(2), f.clone()), int(3)), int(4)))]),
@@ -95,7 +141,7 @@ pub fn custom(case: &Case, v: &Value, _via: Via) -> Verdict {
     Verdict::Pass
 }
 
-fn has_pos(e: &Expect) -> bool { e.diag.iter().any(|d| matches!(d, DiagPred::Pos{..})) }
+fn has_pos(e: &Expect) -> bool { e.diag.iter().any(|d| matches!(d, DiagPred::Pos{..} | DiagPred::SlotPos{..})) }
 
 fn precedes(printed: &print::Printed, e: &Expect) -> Vec<&'static str> {
     // What kinds of text lie before the responsible token.
@@ -193,6 +239,26 @@ pub fn run(ctx: &Ctx) {
             e.diag = vec![DiagPred::WellFormedFront{max_line: line + 1}, DiagPred::Pos{line, col: base + col}];
             ctx.label(&format!("{class} error position"));
             cases.push((Case{property: "C18".into(), kind: "front_position".into(), srcs: vec![src.into_bytes()], pred: Pred::Expect(e), note: format!("{class} error at a known token")}, !h.is_empty()));
+        }
+    }
+    ctx.judge_all(cases, Via::Cli, None);
+    // Far positions: three-digit lines and columns.
+    let mut cases = vec![];
+    for lines_before in [99usize, 100, 255, 256, 1000] {
+        for width in [99usize, 100, 255, 256, 300, 1000] {
+            let mut src = String::new();
+            for k in 0..lines_before {
+                if k % 3 == 0 { src.push_str("# é comment\n") } else if k % 3 == 1 { src.push('\n') } else { src.push_str(&format!("pad{k} := \"日本\"; pad{k} = pad{k}\n")) }
+            }
+            // A string literal of `width` characters, then the failing operator.
+            let text: String = std::iter::repeat("é1").take(width / 2 + 1).collect::<String>().chars().take(width).collect();
+            let line_no = src.matches('\n').count() as u32 + 1;
+            src.push_str(&format!("wide := \"{text}\" + 1\n"));
+            let mut e = Expect::err(vec![]);
+            e.stdout = None;
+            e.diag = vec![DiagPred::WellFormed{max_line: line_no + 1}, DiagPred::Pos{line: line_no, col: 9 + width as u32 + 3}];
+            ctx.label("far position");
+            cases.push((Case{property: "C18".into(), kind: "far_position".into(), srcs: vec![src.into_bytes()], pred: Pred::Expect(e), note: format!("operator at line {line_no}, after a {width}-character multi-byte literal")}, true));
         }
     }
     ctx.judge_all(cases, Via::Cli, None);
